@@ -46,9 +46,9 @@ def run(ck):
     check_records(ck, recs, by_name, kind="c11")
     ck.extra["exhaustive_plain_cases"] = len(recs)
     if not quick:
-        sub = [cfgs[0], cfgs[3], cfgs[4]]
+        sub = [cfgs[2], cfgs[5]]
         r, recs = lu.run_lexer("C11", "plain6", grow=dict(pieces=alphabet, cfgs=sub, max=6, plain=True), timeout=3000)
-        ck.add_tlc(r, "Lexer (every delimiter-free string <= 6 x 3 newline configurations)")
+        ck.add_tlc(r, "Lexer (every delimiter-free string <= 6 x 2 newline configurations)")
         check_records(ck, recs, by_name, kind="c11")
         ck.extra["exhaustive_plain_cases_len6"] = len(recs)
 
@@ -69,7 +69,7 @@ def run(ck):
         pre = [lu.text(rng.choice(["a", "n", "_", "an_", "rn", ""]))]
         post = [lu.text(rng.choice(["a", "n", "_", "n_a", "rn", "", "nn"]))]
         if rng.random() < 0.5:
-            body = "".join(rng.choice(lu.comment_bodies(cfg) + ["r", "rn", "_w_"]) for _ in range(rng.randint(1, 3)))
+            body = "".join(rng.choice([b for b in lu.comment_bodies(cfg) if b] + ["r", "rn", "_w_"]) for _ in range(rng.randint(1, 3)))
             if body[:1] in "-+" or body[-1:] in "-+" or "".join(cfg["ce"]) in body + "".join(cfg["ce"])[:-1]:
                 body = "_" + body.strip("-+").replace("".join(cfg["ce"]), "a") + "_"
             mid = [lu.P("comment", rng.choice(lu.SIGNS), rng.choice(lu.SIGNS), body)]
